@@ -1108,6 +1108,12 @@ def run(ctx):
         t2 = _time.time()
         nhit = run_hitran(ctx, sb, select_files(hfiles, 0, rng), units, 'exhaustive-2x3')
         nhit2 = run_hitran(ctx, sb, select_files(hsim, 0, rng), units, 'simulated-3x4')
+        # thorough: every file of up to 3 blocks + a seeded sample of the 4-block ones (7 808 files with four layouts)
+        if not q:
+            short = [v for v in hlay if len(v['file']) <= 3]
+            rest = [v for v in hlay if len(v['file']) > 3]
+            rng.shuffle(rest)
+            hlay = short + rest[:max(0, 3000 - len(short))]
         nhit3 = run_hitran(ctx, sb, hlay, units, 'layouts-2x2')
         t3 = _time.time()
         nexo = run_exofiles(ctx, sb, select_files(efiles, 0, rng), units, 'exhaustive')
